@@ -1,0 +1,64 @@
+//go:build verif
+
+package hashgraph
+
+// Read-only accessors used by the verification harness (build tag verif).
+
+// VerifRound returns the stored round of the event or nil.
+func (e *Event) VerifRound() *int { return e.round }
+
+// VerifLamport returns the stored lamport timestamp or nil.
+func (e *Event) VerifLamport() *int { return e.lamportTimestamp }
+
+// VerifRoundReceived returns the stored round received or nil.
+func (e *Event) VerifRoundReceived() *int { return e.roundReceived }
+
+// VerifTopologicalIndex returns the local insertion index.
+func (e *Event) VerifTopologicalIndex() int { return e.topologicalIndex }
+
+// VerifLastAncestors returns the last-ancestors coordinates.
+func (e *Event) VerifLastAncestors() CoordinatesMap { return e.lastAncestors }
+
+// VerifFirstDescendants returns the first-descendants coordinates.
+func (e *Event) VerifFirstDescendants() CoordinatesMap { return e.firstDescendants }
+
+// VerifRoundEvent is an exported view of roundEvent.
+type VerifRoundEvent struct {
+	Witness bool
+	Famous  int
+}
+
+// VerifCreated lists created events of a round with witness and fame.
+func (r *RoundInfo) VerifCreated() map[string]VerifRoundEvent {
+	res := map[string]VerifRoundEvent{}
+	for k, v := range r.CreatedEvents {
+		res[k] = VerifRoundEvent{Witness: v.Witness, Famous: int(v.Famous)}
+	}
+	return res
+}
+
+// VerifDecided returns the decided latch.
+func (r *RoundInfo) VerifDecided() bool { return r.decided }
+
+// VerifRoundLowerBound returns the fast-sync lower bound or nil.
+func (h *Hashgraph) VerifRoundLowerBound() *int { return h.roundLowerBound }
+
+// VerifStronglySee exposes stronglySee for the peer-set of round r.
+func (h *Hashgraph) VerifStronglySee(x, y string, r int) (bool, error) {
+	ps, err := h.Store.GetPeerSet(r)
+	if err != nil {
+		return false, err
+	}
+	return h.stronglySee(x, y, ps)
+}
+
+// VerifAncestor exposes ancestor.
+func (h *Hashgraph) VerifAncestor(x, y string) (bool, error) { return h.ancestor(x, y) }
+
+// VerifMiddleBit exposes middleBit.
+func VerifMiddleBit(hex string) bool { return middleBit(hex) }
+
+// VerifDBTopologicalEvents exposes dbTopologicalEvents.
+func (s *BadgerStore) VerifDBTopologicalEvents(start, count int) ([]*Event, error) {
+	return s.dbTopologicalEvents(start, count)
+}
